@@ -65,7 +65,10 @@ RootsOf(s) ==
     \cup {<<"P", x>> : x \in IdsP(s) \cap {1}} \cup {<<"C", x>> : x \in IdsC(s) \cap {1}}
     \cup {<<"Q", x>> : x \in IdsQ(s) \cap {1}} \cup {<<"W", x>> : x \in IdsW(s) \cap {1}}
 QueryProduct(s) ==
-    LET pats == PatternsFrom(ValuesIn(s)) \cup {<<Lit("a"), Lit("/"), AnyN>>, <<AnyN, Lit("b")>>, <<Any1, AnyN>>}
+    LET pats == PatternsFrom(ValuesIn(s)) \cup {<<Lit("a"), Lit("/"), AnyN>>, <<AnyN, Lit("b")>>, <<Any1, AnyN>>,
+                                                 \* bit indices of hierarchical pin / wire names
+                                                 <<AnyN, Lit("["), Lit("2"), Lit("]")>>, <<AnyN, Lit("["), Lit("3"), Lit("]")>>,
+                                                 <<AnyN, Lit("["), Lit("0"), Lit("]")>>, <<AnyN, Lit("a"), Lit("["), Any1, Lit("]")>>}
         patseqs == {<<p>> : p \in pats} \cup {<<p, q>> : <<p, q>> \in pats \X pats} IN
     [op : {"q"}, fn : FlatFns \cup HierFns, root : RootsOf(s), sel : {"INSIDE", "OUTSIDE"}, rec : BOOLEAN,
      key : {"name", "k", "eid"}, pats : patseqs, isCase : BOOLEAN, isRe : BOOLEAN, filt : {"none", "odd"}]
@@ -80,6 +83,13 @@ DirectProduct(s) ==
     IN {[op |-> "q", fn |-> pr[1], root |-> pr[2], sel |-> "INSIDE", rec |-> rc, key |-> key, pats |-> ps,
          isCase |-> TRUE, isRe |-> FALSE, filt |-> "none"] :
             <<pr, rc, key, ps>> \in pairs \X BOOLEAN \X {"name", "k", "eid"} \X patseqs}
+(* hierarchical pins / wires by their indexed names ("a/a[2]"), from the netlist and from every instance reference *)
+IndexedNameProduct(s) ==
+    LET pats == {<<AnyN, Lit("["), Lit("2"), Lit("]")>>, <<AnyN, Lit("["), Lit("3"), Lit("]")>>, <<AnyN, Lit("["), Lit("0"), Lit("]")>>,
+                 <<AnyN, Lit("["), Lit("1"), Lit("]")>>, <<AnyN, Lit("a"), Lit("["), Any1, Lit("]")>>, <<AnyN, Lit("["), AnyN>>}
+    IN {[op |-> "q", fn |-> fn, root |-> <<"N", 1>>, sel |-> "INSIDE", rec |-> rc, key |-> "name", pats |-> <<p>>,
+         isCase |-> TRUE, isRe |-> re, filt |-> "none"] :
+            <<fn, rc, p, re>> \in {"hpins", "hwires", "hports", "hcables"} \X BOOLEAN \X pats \X BOOLEAN}
 (* cables reached indirectly (from an instance, a pin, a wire, a cable) with an exact pattern AHEAD of an overlapping one *)
 IndirectCableProduct(s) ==
     LET vals == ValuesIn(s)
